@@ -142,7 +142,7 @@ def run_in_fresh_loop(coro_fn: Any, debug_log: bool = False) -> Any:
         lg.handlers[:] = []
         lg.propagate = True
     if debug_log:
-        debug_logging()       # the deployment has the library's logger at DEBUG: every log call is evaluated and formatted
+        debug_logging(report=True)       # the deployment has the library's logger at DEBUG: every log call is evaluated and formatted
     from asyncio_taskpool.pool import BaseTaskPool
     BaseTaskPool._pools.clear()
     loop = asyncio.new_event_loop()
